@@ -82,7 +82,12 @@ func (d *Document) PopMapValue(key string) (bool, any) {
 }
 
 func (d *Document) Process(mergeFromDocs []*Document) ([]*Document, error) {
-	var err error
+	// Evaluation rewrites the tree in place, and d is usually a document stored
+	// in a Parser: evaluate a copy so that output does not change parser state.
+	d, err := d.Clone("process")
+	if err != nil {
+		return nil, err
+	}
 
 	ec := NewEvalContext()
 
